@@ -10,9 +10,10 @@ from tfv import core
 from tfv.core import Violation, run_async
 from tfv.gen import DocGen, gen_schema
 from tfv.impl import Harness, PlainObj, clean_registry
-from tfv.model import fields_of, kind_of, possible_types, print_document, ty
+from tfv.model import fields_of, kind_of, named, possible_types, print_document, ty
 from tfv.props import c01
 from tfv.ref import CODECS, Executor, coerce_variable_values
+from tartiflette.resolver.default import default_type_resolver  # noqa: E402
 
 ID = "C03"
 LEVEL = "exploration"
@@ -31,7 +32,7 @@ RULE = (
     "(schema, document, recorded returns); non-trivial = at least one position received an ill-typed value and at least "
     "one other position still produced non-null data."
 )
-ASSUMPTIONS = c01.ASSUMPTIONS + ["all fields have harness resolvers; the engine's default type resolver is in use"]
+ASSUMPTIONS = c01.ASSUMPTIONS + ["all fields have harness resolvers; type resolvers are the engine's default one or harness ones answering adversarially (names or type objects of possible/impossible/non-object types, garbage)"]
 INT_MIN, INT_MAX = -(2 ** 31), 2 ** 31 - 1
 
 # ------------------------------------------------------------------ value recipes
@@ -259,6 +260,7 @@ class AdvHarness(Harness):
         self.chooser = None
         self.returns = {}  # path-json -> recipe
         self.raw = {}
+        self.tseq = {}
 
     def serve(self, rs, parent, obj, field, args, path):
         key = json.dumps(list(path))
@@ -273,6 +275,37 @@ class AdvHarness(Harness):
         if r[0] == "exc" and r[2] == "boom" and len(r) == 3 and self.plan.get("raise_booms", True):
             raise build(r)
         return build(r)
+
+    def _answer(self, value, abstract, level, info, coord, ctx=None):
+        """adversarial type resolvers (plan tr_type / tr_field / tr_engine): whatever the level, the answer is drawn
+        per call: the default resolver's answer, any type *name*, any schema type *object* (possible or not, object
+        type or not), or garbage"""
+        rs = self.state_of(ctx)
+        path = [k for k in info.path.as_list()]
+        self.tseq[json.dumps(path)] = n = self.tseq.get(json.dumps(path), 0) + 1
+        key = "T:%s#%d" % (json.dumps(path), n)
+        r = self.returns.get(key)
+        if r is None:
+            if self.chooser is None:
+                r = ["truth"]
+            else:
+                c = self.chooser
+                k = c.weighted([(5, "truth"), (2, "name"), (4, "object"), (1, "value")])
+                names = list(self.schema["types"]) + ["Int", "NoSuchType"]
+                r = {"truth": lambda: ["truth"], "name": lambda: ["name", c.choice(names)], "object": lambda: ["object", c.choice(names)],
+                     "value": lambda: ["value", c.choice([["none"], ["int", 1], ["list", []], ["exc", "ValueError", "x"], ["obj", []]])]}[k]()
+            self.returns[key] = r
+        rs.type_calls.append((tuple(path), abstract, coord, level))
+        if r[0] == "truth":
+            return default_type_resolver(value, ctx, info, None)
+        if r[0] == "name":
+            return r[1]
+        if r[0] == "object":
+            try:
+                return info.schema.find_type(r[1])
+            except KeyError:
+                return r[1]
+        return build(r[1])
 
 
 # ------------------------------------------------------------------ validity predicate
@@ -404,6 +437,7 @@ def check(spec, chooser=None, h=None):
     h.chooser = chooser
     h.returns = dict(spec.get("returns") or {})
     h.raw = {}
+    h.tseq = {}
     printed = print_document(spec["doc"])
     ex = Executor(schema, spec["doc"], None)
     op = ex.get_operation(spec["op"])
@@ -462,6 +496,22 @@ def case(c, stats):
     schema = gen_schema(c)
     kw = {"coerce_list_concurrently": c.maybe(50), "coerce_parent_concurrently": c.maybe(50)}
     plan = {"default_fields": [], "tr_field": [], "tr_type": [], "engine_kwargs": kw, "inherit_parent_concurrency": True}
+    if c.maybe(50):  # harness type resolvers with adversarial answers (AdvHarness._answer)
+        abstract = [n for n, d in schema["types"].items() if d["kind"] in ("INTERFACE", "UNION")]
+        plan["tr_type"] = [a for a in abstract if c.maybe(50)]
+        plan["tr_engine"] = c.maybe(40)
+        for tn, td in schema["types"].items():
+            if td["kind"] == "OBJECT":
+                for fn, fd in td["fields"].items():
+                    if named(ty(fd["type"])) in abstract and c.maybe(30):
+                        plan["tr_field"].append("%s.%s" % (tn, fn))
+    if c.maybe(40):  # per-field concurrency overrides: sequentially and concurrently completed siblings side by side
+        plan["concurrency"] = {}
+        for tn, td in schema["types"].items():
+            if td["kind"] == "OBJECT":
+                for fn in td["fields"]:
+                    if c.maybe(35):
+                        plan["concurrency"]["%s.%s" % (tn, fn)] = {"list": c.choice([None, True, False]), "parent": c.choice([None, True, False])}
     clean_registry()
     h = AdvHarness(schema, plan)
     run_async(h.build(**kw))
@@ -473,7 +523,7 @@ def case(c, stats):
         kinds = set()
         ex = Executor(schema, spec["doc"], None)
         for key, r in spec["returns"].items():
-            kinds.add("ret:" + r[0])
+            kinds.add(("type_answer:" if key.startswith("T:") else "ret:") + r[0])
         ill = sum(1 for r in spec["returns"].values() if r[0] in ("bytes", "tuple", "set", "gen", "decimal", "fraction", "exc", "excobj", "exccls", "complex", "named_obj", "pyenum") or (r[0] == "float" and r[1] in ("nan", "inf", "-inf")))
         nontrivial = ill >= 1 and n_good >= 1
         stats.case({"schema": schema, "doc": spec["doc"], "returns": spec["returns"], "v": spec["variables"]}, nontrivial, sorted(kinds),
